@@ -279,6 +279,15 @@ func SetExtra(prop, test, key string, v any) {
 	r.mu.Unlock()
 }
 
+// SetExtraAdd adds n to a numeric extra value.
+func SetExtraAdd(prop, test, key string, n int) {
+	r := getRecorder(prop, test)
+	r.mu.Lock()
+	cur, _ := r.stats.Extra[key].(int)
+	r.stats.Extra[key] = cur + n
+	r.mu.Unlock()
+}
+
 const maxSamples = 6
 
 func (r *recorder) account(x *Ctx, caseJSON []byte, err error) {
